@@ -9,11 +9,13 @@ package grpcgcp
 
 import (
 	"bufio"
+	"context"
 	"encoding/json"
 	"fmt"
 	"os"
 	"strings"
 	"testing"
+	"time"
 
 	"github.com/GoogleCloudPlatform/grpc-gcp-go/grpcgcp/multiendpoint"
 	"google.golang.org/protobuf/encoding/protojson"
@@ -156,7 +158,7 @@ func TestVerifConfig(t *testing.T) {
 		}
 	}
 	// GCPMultiEndpoint never mutates or aliases the caller's configuration; GCPConfig() is an equal deep copy
-	for k := 0; k < 3; k++ {
+	for k := 0; k < 6; k++ {
 		ev := map[string]interface{}{"kind": "gmecfg", "id": id, "panic": false, "equal": false, "copyindep": false, "callerindep": false}
 		id++
 		func() {
@@ -172,6 +174,12 @@ func TestVerifConfig(t *testing.T) {
 				}
 			}()
 			orig := vApiConfig(vCfg{Min: 1 + k, Max: 3, Wm: 5, Fb: k%2 == 0, Uc: 2, Ums: 100})
+			switch k {
+			case 3:
+				orig = nil // no gRPC-GCP configuration at all
+			case 4:
+				orig = vApiConfig(vCfg{NoPool: true}) // method entries only
+			}
 			keep := proto.Clone(orig).(*pb.ApiConfig)
 			g, err := NewGCPMultiEndpoint(&GCPMultiEndpointOptions{GRPCgcpConfig: orig,
 				MultiEndpoints: map[string]*multiendpoint.MultiEndpointOptions{"m1": {Endpoints: []string{"a"}}}, Default: "m1", DialFunc: h.dialFunc})
@@ -179,14 +187,34 @@ func TestVerifConfig(t *testing.T) {
 				return
 			}
 			defer g.Close()
+			if k == 5 {
+				// a reconfiguration carries its own options object (with another configuration): the object's configuration stays
+				other := vApiConfig(vCfg{Min: 2, Max: 2, Wm: 9})
+				if e := g.UpdateMultiEndpoints(&GCPMultiEndpointOptions{GRPCgcpConfig: other,
+					MultiEndpoints: map[string]*multiendpoint.MultiEndpointOptions{"m1": {Endpoints: []string{"b", "a"}}}, Default: "m1", DialFunc: h.dialFunc}); e != nil {
+					return
+				}
+				other.ChannelPool.MaxSize = 55
+			}
 			c1 := g.GCPConfig()
-			ev["equal"] = proto.Equal(c1, keep) && proto.Equal(orig, keep)
-			c1.ChannelPool.MaxSize = 99
-			c1.Method = nil
+			ev["equal"] = proto.Equal(c1, keep) && proto.Equal(orig, keep) && (c1 == nil) == (keep == nil)
+			if c1 != nil {
+				c1.ChannelPool = &pb.ChannelPoolConfig{MaxSize: 99}
+				c1.Method = nil
+			}
 			ev["copyindep"] = proto.Equal(g.GCPConfig(), keep)
-			orig.ChannelPool.MinSize = 77
-			orig.Method[0].Name[0] = "/changed"
+			if orig != nil {
+				orig.ChannelPool = &pb.ChannelPoolConfig{MinSize: 77}
+				orig.Method[0].Name[0] = "/changed"
+			}
 			ev["callerindep"] = proto.Equal(g.GCPConfig(), keep)
+			// the object is usable with this configuration
+			ctx, cancel := context.WithTimeout(context.Background(), 2*time.Second)
+			_, cerr := vgCall(g, ctx, k%2 == 1)
+			cancel()
+			if cerr != nil {
+				ev["equal"] = false
+			}
 		}()
 		enc.Encode(ev)
 	}
